@@ -13,7 +13,7 @@ NOTE = ("Trusted: Coq 8.16.1 kernel (vm_compute, no native_compute); the hand-wr
 C = {}
 C["C01"] = ("proof", "Proved on the model, for EVERY template text in every character width and EVERY value (c01_render_all_safe): Template::Render = parse then render never reaches an error outcome -- no out-of-bounds read of the text at any site of Finder::Next, parse (all eleven match kinds, attribute scanners, the reads of the expression parser, 8/16-bit field truncations) or the renderer (every literal slice, every index into the loop-item array, every inline-if start id, getValue's bracket scan), no Last() of an empty array, no tag record read as another kind, no negative unsigned difference, termination within |text|+2 parser iterations; via the invariant c01_tree_ok_all (the tree parse builds obeys the offset discipline the renderer relies on). Stating these theorems found nine memory-safety defects (repaired). PARTIAL in this sense: the value side (lookup, GroupBy, Sort, number formatting) and expression evaluation are abstract parameters of the renderer theorem (they are C04/C10/C12/C13/C15/C18), array capacity/reallocation and object lifetimes are not modelled; those and the tie to the code are covered by comparing the real tag trees and the complete rendered output with the extracted models on arbitrary texts, and by a sanitizer search (grammar templates, mutations, token soup, all prefixes of complete tags, boundary shapes for the 8/16-bit fields, 4 widths, auto-escape off, SIMD builds in thorough).",
             "Model of parse/render hand-written (tied by tree / output comparison on thousands of arbitrary texts per run); value operations and evaluation abstract in the renderer theorem; stack depth, timing runtime.")
-C["C02"] = ("proof", "Proved END TO END on the faithful models for every constructor of the template AST (c02_full): the parser model (real scanner, stack, attribute scanners, expression parser, 8/16-bit fields) applied to the printed template, followed by the renderer model (slices, Level-indexed loop items, text-scanned paths, every access checked) on the concrete value type = the documented expansion `expand`, for every well-formed AST, value tree, width and escape configuration; wf_template is a boolean predicate measured on the generated ASTs in every run. PARTIAL in this sense: the expression language of the theorem is the exact-integer fragment with one operator per parenthesis level (precedence and the full arithmetic are C04), reals only as multiples of 0.25, sort restricted to naturals / strings / object keys; the models are hand-written and tied to the C++ by comparing tag trees and complete rendered outputs on arbitrary texts and by the differential run over generated ASTs x value trees (4 widths; 3 SIMD builds in thorough) judged by the extracted reference interpreter.",
+C["C02"] = ("proof", "Proved END TO END on the faithful models for every constructor of the template AST (c02_full): the parser model (real scanner, stack, attribute scanners, expression parser, 8/16-bit fields) applied to the printed template, followed by the renderer model (slices, Level-indexed loop items, text-scanned paths, every access checked) on the concrete value type = the documented expansion `expand`, for every well-formed AST, value tree, width and escape configuration; wf_template is a boolean predicate measured on the generated ASTs in every run. PARTIAL in this sense: the expression language of the theorem is the exact-integer fragment with one operator per parenthesis level (precedence and the full arithmetic are C04); its evaluator is bridged to C04's faithful ExprModel.eval_items on a boolean domain check (c02_bridge_q_top, c02_full_faithful_eval: integers within 64 bits, no real / signed-numeral-string variables); real values are IEEE bit patterns printed by the Digit model (any finite double), sort restricted to naturals / strings / object keys; the models are hand-written and tied to the C++ by comparing tag trees and complete rendered outputs on arbitrary texts and by the differential run over generated ASTs x value trees (4 widths; 3 SIMD builds in thorough) judged by the extracted reference interpreter.",
             "Hand-written parser/renderer models; value operations (GroupBy, Sort, number formatting) enter through their own models (C18, C15, C10) restricted to the generated domain.")
 C["C03"] = ("proof", "Unbounded Coq theorems (induction on the string) for the escaper model: output is a concatenation of non-special units and complete entities, decode-preservation, idempotence, raw verbatim, off = raw, and Safe output for every {var:} position of the routing model; entity strings/lengths/default config are re-checked from the headers on each run; the model is tied to the C++ by a differential run (exhaustive short look-alike strings + random, 4 widths, 7 tag positions, 2 builds).",
             "Routing of tag positions in Template.hpp is modelled as a table and tied only by the differential run.")
